@@ -49,6 +49,25 @@ impl DcpsDomainParticipant {
             QosKind::Specific(q) => q,
         };
 
+        // The publisher id is a single octet: skip the ids of publishers that still exist
+        // (the counter wraps around after 256 created publishers)
+        let mut free_publisher_id = None;
+        for _ in 0..=u8::MAX {
+            if !self
+                .domain_participant
+                .user_defined_publisher_list
+                .iter()
+                .any(|p| p.instance_handle[12] == self.publisher_counter)
+            {
+                free_publisher_id = Some(self.publisher_counter);
+                break;
+            }
+            self.publisher_counter = self.publisher_counter.wrapping_add(1);
+        }
+        if free_publisher_id.is_none() {
+            return Err(DdsError::OutOfResources);
+        }
+
         let publisher_handle = InstanceHandle::new([
             self.domain_participant.instance_handle[0],
             self.domain_participant.instance_handle[1],
@@ -67,7 +86,7 @@ impl DcpsDomainParticipant {
             0,
             USER_DEFINED_WRITER_GROUP,
         ]);
-        self.publisher_counter += 1;
+        self.publisher_counter = self.publisher_counter.wrapping_add(1);
         let data_writer_list = Default::default();
         let listener_sender = dcps_listener.map(|l| l.spawn(&runtime.spawner()));
         let mut publisher = PublisherEntity::new(
@@ -139,6 +158,25 @@ impl DcpsDomainParticipant {
             QosKind::Default => self.domain_participant.default_subscriber_qos.clone(),
             QosKind::Specific(q) => q,
         };
+        // The subscriber id is a single octet: skip the ids of subscribers that still exist
+        // (the counter wraps around after 256 created subscribers)
+        let mut free_subscriber_id = None;
+        for _ in 0..=u8::MAX {
+            if !self
+                .domain_participant
+                .user_defined_subscriber_list
+                .iter()
+                .any(|s| s.instance_handle[12] == self.subscriber_counter)
+            {
+                free_subscriber_id = Some(self.subscriber_counter);
+                break;
+            }
+            self.subscriber_counter = self.subscriber_counter.wrapping_add(1);
+        }
+        if free_subscriber_id.is_none() {
+            return Err(DdsError::OutOfResources);
+        }
+
         let subscriber_handle = InstanceHandle::new([
             self.domain_participant.instance_handle[0],
             self.domain_participant.instance_handle[1],
@@ -157,7 +195,7 @@ impl DcpsDomainParticipant {
             0,
             USER_DEFINED_READER_GROUP,
         ]);
-        self.subscriber_counter += 1;
+        self.subscriber_counter = self.subscriber_counter.wrapping_add(1);
 
         let listener_sender = dcps_listener.map(|l| l.spawn(&runtime.spawner()));
         let mut subscriber = UserDefinedSubscriber::new(
